@@ -11,8 +11,9 @@ VERIF = os.path.dirname(os.path.dirname(os.path.abspath(__file__)))
 _BOOTED = None
 
 
-def boot():
-    """idempotent: a second call must not re-import the package (two generations of its classes would coexist)"""
+def boot(quiet=True):
+    """idempotent: a second call must not re-import the package (two generations of its classes would coexist).
+    quiet=False leaves the logging configuration alone (a process that behaves like the real command line)"""
     global _BOOTED
     if _BOOTED is not None:
         return _BOOTED
@@ -36,8 +37,9 @@ def boot():
         del sys.modules[k]
     import warnings
     warnings.filterwarnings("ignore")
-    import logging
-    logging.disable(logging.CRITICAL)
+    if quiet:
+        import logging
+        logging.disable(logging.CRITICAL)
     import atsim.potentials as p
     assert os.path.abspath(p.__file__).startswith(root + "/"), (p.__file__, root)
     _BOOTED = p
